@@ -61,23 +61,31 @@ def run(ctx, factor):
     cwd = os.path.join(sc.dir, "cli")
     os.makedirs(cwd, exist_ok=True)
     obj = objfuzz.assemble(sc, [(".text", [0x55, 0x48, 0x89, 0xe5, 0xe8, 0, 0, 0, 0, 0x50, 0x58, 0x5d, 0xc3])], name="c20")
-    for _ in range(ctx.budget(14, 200) * factor):
-        doc = gen_rules.rule(g, {"ops", "logic", "times"}, nitems=g.int(1, 2), depth=1)
+    for it in range(ctx.budget(16, 200) * factor):
+        # every fourth case: one-item rule on a listing that repeats the same records, all matches requested
+        # (consecutive identical `Matched address` lines must all be logged)
+        repeated = it % 4 == 0
+        doc = gen_rules.rule(g, {"ops", "logic", "times"}, nitems=1 if repeated else g.int(1, 2), depth=1)
         files = []
         if g.chance(0.5):
             doc["pattern"].insert(0, "@x")
             files.append({"macros": [{"name": "@x", "pattern": g.pick(["push", "mov", "p"])}]})
             if g.chance(0.5):
                 files.append({"macros": [{"name": "@y", "pattern": "nop"}]})
-        binary = g.chance(0.35)
+        binary = g.chance(0.35) and not repeated
         insts = gen_rules.realise(g, doc if not files else dict(doc, pattern=doc["pattern"][1:]))
         if files:
             insts = [(a, m, o) for a, m, o in insts]
-        text = gen.render_listing(insts + gen_rules.realise(g, dict(doc, pattern=doc["pattern"][-1:])), g)
+        body = insts + gen_rules.realise(g, dict(doc, pattern=doc["pattern"][-1:]))
+        if repeated or g.chance(0.4):
+            # listings of relocatable objects restart addresses per section: the same records (and so the same
+            # matched texts and addresses) occur several times
+            body = body * g.int(2, 3)
+        text = gen.render_listing(body, g)
         rule_path = sc.write(impl.dump_yaml(doc), ".yaml")
         in_path = obj if binary else sc.write(text, ".s")
         mpaths = [sc.write(impl.dump_yaml(f), ".macros.yaml") for f in files]
-        allm, ao = g.chance(0.5), g.chance(0.5)
+        allm, ao = repeated or g.chance(0.5), g.chance(0.5)
         args = ["-p", rule_path, "-b" if binary else "-s", in_path]
         if allm:
             args.append("--all-matches")
